@@ -66,6 +66,12 @@ class TState:
     self.thread = None
     self.deliver = True       # may a pending async exception be raised at this point?
     self.pending_call = None  # callable to run in this thread at its next point (simulated signal handler)
+    self.short = False        # blocked in a short timed wait (a polling interval): may expire early
+    self.expiring = False     # offered to the policy as "let its short wait expire now"
+
+  @property
+  def label(self):
+    return self.name + '~' if self.expiring else self.name
 
 
 # ---- policies ---------------------------------------------------------
@@ -83,6 +89,7 @@ class Sequential:
 class Replay:
   """Follows a recorded list of decisions (thread names); after the list is
   exhausted behaves like `fallback`."""
+  handles_expiry = True
 
   def __init__(self, decisions, fallback=None):
     self.decisions = list(decisions)
@@ -90,16 +97,16 @@ class Replay:
     self.fallback = fallback or Sequential()
 
   def choose(self, sched, enabled, current):
-    if len(enabled) == 1:
+    if len(enabled) == 1 and not enabled[0].expiring:
       return enabled[0]
     if self.i < len(self.decisions):
       want = self.decisions[self.i]
       self.i += 1
       for s in enabled:
-        if s.name == want:
+        if s.label == want:
           return s
-      raise ReplayDivergence('wanted %s, enabled %s' % (want, [s.name for s in enabled]))
-    return self.fallback.choose(sched, enabled, current)
+      raise ReplayDivergence('wanted %s, enabled %s' % (want, [s.label for s in enabled]))
+    return self.fallback.choose(sched, [s for s in enabled if not s.expiring], current)
 
 
 class RandomPolicy:
@@ -119,11 +126,18 @@ class RandomPolicy:
 class Sched:
 
   def __init__(self, policy=None, max_steps=200000, trace_events=False,
-               quiet_logging=True, start_time=1000.0, max_vtime=200000.0):
+               quiet_logging=True, start_time=1000.0, max_vtime=200000.0, early_expiry=0.0):
     self.policy = policy or Sequential()
     self.now = start_time
     self.t0 = start_time
     self.max_vtime = max_vtime
+    # Virtual time normally advances only when no thread can run (threads are
+    # fast compared with timeouts).  For polling intervals that assumption is
+    # weak: with early_expiry = x, a timed wait of at most x seconds may also
+    # expire while other threads are runnable - offered to policies that set
+    # handles_expiry as the extra alternative "<name>~" (the DFS counts it as a
+    # preemption).
+    self.early_expiry = early_expiry
     self.states = []
     self.by_thread = {}
     self.current = None
@@ -174,22 +188,34 @@ class Sched:
           return None
         self.failure = Deadlock([(s.name, s.why) for s in live])
         return None
-      self.now = min(s.wake_at for s in timed)
+      self.now = max(self.now, min(s.wake_at for s in timed))
       if self.now - self.t0 > self.max_vtime:
         self.failure = StepBudget('virtual time budget exhausted (%.0f s): the run does not finish' % self.max_vtime)
         return None
       en = [s for s in timed if s.wake_at <= self.now]
       timed_out = True
-    if len(en) == 1:
+    for s in self.states:
+      s.expiring = False
+    exp = []
+    if self.early_expiry and not timed_out and getattr(self.policy, 'handles_expiry', False):
+      exp = [s for s in self.states if not s.done and s.short and s.wake_at is not None and s not in en]
+      for s in exp:
+        s.expiring = True
+    if len(en) == 1 and not exp:
       nxt = en[0]
     else:
       try:
-        nxt = self.policy.choose(self, en, cur if (cur is not None and not cur.done) else None)
+        nxt = self.policy.choose(self, en + exp, cur if (cur is not None and not cur.done) else None)
       except Exception as e:  # pylint: disable=broad-except
         self.failure = e      # e.g. ReplayDivergence: end the run, do not kill a controlled thread
         return None
-      self.decisions.append(([s.name for s in en], nxt.name,
+      self.decisions.append(([s.label for s in en + exp], nxt.label,
                              cur.name if cur is not None and not cur.done else None))
+    if nxt.expiring:
+      self.now = max(self.now, nxt.wake_at)
+      timed_out = True
+    for s in self.states:
+      s.expiring = False
     if timed_out:
       nxt.result = bool(nxt.cond is None or nxt.cond())
     else:
@@ -234,6 +260,7 @@ class Sched:
       st.deliver = deliver
       st.cond = cond
       st.wake_at = wake_at
+      st.short = bool(timeout is not None and self.early_expiry and timeout <= self.early_expiry)
       st.why = why
       if self._handoff(st) != 'self':
         st.sem.acquire()
@@ -241,6 +268,7 @@ class Sched:
           raise _Abandon()
       st.cond = None
       st.wake_at = None
+      st.short = False
       if deliver:
         exc, st.pending_exc = st.pending_exc, None
         if exc is not None:
